@@ -39,6 +39,9 @@ func init() {
 	mutant(&Mutant{Name: "c10-padding-box-position-stale", Property: "C10", File: "css/css.go",
 		Old: "\t\t\t\t\t\t\tiPaddingBox = -1 // both are removed, the position no longer refers to padding-box\n", New: "",
 		Rule: "R10.5", Construct: "iPaddingBox after the deletion"})
+	mutant(&Mutant{Name: "c10-mediatype-lowercase-uncapped", Property: "C10", File: "common.go",
+		Old: "\t\t\t\tif i-lastString < 1024 { // ToLower may otherwise slow down minification greatly\n\t\t\t\t\tparse.ToLower(b[lastString:i])\n\t\t\t\t}\n", New: "\t\t\t\tparse.ToLower(b[lastString:i])\n",
+		Rule: "R10.6", Construct: "Mediatype"})
 	mutant(&Mutant{Name: "c10-css-level-not-decremented", Property: "C10", File: "css/css.go",
 		Old: "\tc.tokensLevel--\n\treturn values\n}", New: "\treturn values\n}",
 		Rule: "R10.2", Construct: "minifyTokens"})
@@ -59,6 +62,7 @@ func runC10(c *Ctx) {
 	c.r103()
 	c.r104()
 	c.r105()
+	c.r106()
 }
 
 // lenLowerBound derives, from an outcome of a condition, a lower bound of len(<expr>) (by expression text).
